@@ -190,6 +190,9 @@ class Ctx:
             inconclusive.append(f"too few non-trivial cases ({len(self.nontrivial)} of {self.evaluations})")
 
         replay_paths = []
+        for name in os.listdir(REPLAY_DIR):
+            if name.startswith(f"{self.pid}-{self.tier}-{self.seed}-"):
+                os.remove(os.path.join(REPLAY_DIR, name))
         for i, v in enumerate(self.violations):
             path = os.path.join(REPLAY_DIR, f"{self.pid}-{self.tier}-{self.seed}-{i}.json")
             with open(path, "w", encoding="utf-8") as handle:
